@@ -33,7 +33,7 @@ pub fn def_c32() -> PropDef {
         level: "exploration",
         profile: profile_c32,
         oracle: |_cfg| Box::new(C32::default()),
-        quick_runs: 20_000,
+        quick_runs: 60_000,
         thorough_runs: 500_000,
         panic_is_violation: false,
         rule: "run = multi-replica history with nested maps, lists and text of differing sizes and conflicted registers; at probe points and at the end every replica is serialized with AutoSerde (a) to serde_json and compared with the winners-only image of the R2 tree (text as strings), and (b) through a serializer written for this harness that ENFORCES serde's length contract (serialize_map(Some(n)) / serialize_seq(Some(n)) must receive exactly n entries). non-trivial = the document has a nested map whose size differs from the root's, or a conflicted register; distinct by state digest",
